@@ -43,6 +43,7 @@ Definition flatten_forest (f : list rtree) : list (N * ninfo) := flat_map (flatt
 Record xnode : Type := {
   x_id : N;                 (* index in document order, from 0 *)
   x_parent : option N;      (* None: top-level node (child of the root) *)
+  x_pmod : option bytes;    (* module of the parent node, None for a top-level node *)
   x_last : N;               (* index of the last descendant (x_id when there is none) *)
   x_depth : N;
   x_prev : bool;            (* has a preceding sibling *)
@@ -55,6 +56,13 @@ Fixpoint find_parent (before : list (N * N)) (d : N) : option N :=
   match before with
   | [] => None
   | (i, di) :: r => if di <? d then Some i else find_parent r d
+  end.
+
+(* module of the nearest node before with a smaller depth; [before] as (depth, module) *)
+Fixpoint find_parent_mod (before : list (N * bytes)) (d : N) : option bytes :=
+  match before with
+  | [] => None
+  | (di, m) :: r => if di <? d then Some m else find_parent_mod r d
   end.
 
 (* is there a node of depth d before any node of smaller depth? *)
@@ -70,17 +78,18 @@ Fixpoint count_deeper (after : list (N * ninfo)) (d : N) : N :=
   | (di, _) :: r => if d <? di then 1 + count_deeper r d else 0
   end.
 
-Fixpoint index_aux (l : list (N * ninfo)) (i : N) (before : list (N * N)) : list xnode :=
+Fixpoint index_aux (l : list (N * ninfo)) (i : N) (before : list (N * N)) (bmods : list (N * bytes)) : list xnode :=
   match l with
   | [] => []
   | (d, info) :: r =>
-      {| x_id := i; x_parent := find_parent before d; x_last := i + count_deeper r d; x_depth := d;
+      {| x_id := i; x_parent := find_parent before d; x_pmod := find_parent_mod bmods d;
+         x_last := i + count_deeper r d; x_depth := d;
          x_prev := has_sibling_in before d;
          x_next := has_sibling_in (map (fun p : N * ninfo => (0, fst p)) r) d;
-         x_info := info |} :: index_aux r (i + 1) ((i, d) :: before)
+         x_info := info |} :: index_aux r (i + 1) ((i, d) :: before) ((d, ni_mod info) :: bmods)
   end.
 
-Definition index_tree (l : list (N * ninfo)) : list xnode := index_aux l 0 [].
+Definition index_tree (l : list (N * ninfo)) : list xnode := index_aux l 0 [] [].
 Definition tree_of_forest (f : list rtree) : list xnode := index_tree (flatten_forest f).
 
 (* ------------------------------------------------------------------------------------------------ *)
